@@ -154,6 +154,16 @@ def gen_server_handlers(txt):
                      (r'^struct AddAdfProblemBodyPlain\b', 'struct AddAdfProblemBodyPlain'), (r'^struct AdfProblemInfo\b', 'struct AdfProblemInfo'),
                      (r'^impl AdfProblemInfo \{', 'impl AdfProblemInfo'), (r'^struct SolveAdfProblemBody\b', 'struct SolveAdfProblemBody')):
         parts.append(_cut_item(txt, rx, what))
+    # inherent impl blocks of the cut types (a maintainer may move a closure's body into a method)
+    import re as _re
+    for nm in ('AddAdfProblemBodyPlain', 'SolveAdfProblemBody', 'AcAndGraph', 'AdfProblem', 'AcsPerStrategy'):
+        for m in _re.finditer(r'^impl %s \{' % nm, txt, _re.M):
+            i = txt.index('{', m.start()); depth = 0
+            for k in range(i, len(txt)):
+                if txt[k] == '{': depth += 1
+                elif txt[k] == '}':
+                    depth -= 1
+                    if depth == 0: parts.append(txt[m.start():k + 1] + '\n'); break
     parts.append('type AcsAndGraphsOpt = OptionWithError<Vec<AcAndGraph>>;\ntype SimplifiedAdfOpt = OptionWithError<SimplifiedAdf>;\n')
     for rx, what in ((r'^pub\(crate\) enum Task\b', 'enum Task'), (r'^pub\(crate\) struct RunningInfo\b', 'struct RunningInfo')):
         parts.append(_cut_item(cfg, rx, what))
